@@ -38,6 +38,7 @@ type funcInfo struct {
 	ext         externalFn
 	extChecked  bool
 	pure        map[*ssa.BasicBlock]*diamond // if-conversion candidates keyed by branching block
+	ipdom       map[*ssa.BasicBlock]*ssa.BasicBlock
 }
 
 type frame struct {
@@ -52,6 +53,7 @@ type frame struct {
 	panicking        bool
 	panic            any
 	visits           map[*ssa.BasicBlock]int
+	phisDone         bool
 }
 
 // interp is the state of one worker.
@@ -83,6 +85,7 @@ type interp struct {
 	wrapErrorsType   types.Type
 	covered map[*ssa.Function]bool
 	sched *scheduler
+	speculating bool
 }
 
 type methodKey struct {
@@ -95,6 +98,7 @@ type workerStats struct {
 	Instrs     int64
 	Paths      int
 	Decisions  int64
+	IfConverted int64
 }
 
 func newInterp(prog *ssa.Program, cfg *runConfig) *interp {
@@ -771,7 +775,11 @@ func (in *interp) runFrame(fr *frame) {
 		in.stats.Instrs += int64(len(b.Instrs))
 		first := fr.info.firstNonPhi[b]
 		if first > 0 {
-			in.executePhis(fr, b, first)
+			if fr.phisDone {
+				fr.phisDone = false
+			} else {
+				in.executePhis(fr, b, first)
+			}
 		}
 		instrs := b.Instrs
 		for i := first; i < len(instrs); i++ {
